@@ -197,10 +197,17 @@ def build_cases(tier):
         for si, s in enumerate(chunk):
             q = json.dumps(s, ensure_ascii=False)
             src += f"db.Setting = HASH({q})\ndb.On = Batteries[{q}].Charge.Sum\nGrowLights[{q}].On = 1\ndb.Mode = Devices({q}).Charge.Average\nDevices(HASH({q}), {q}).On = 0\n"
+            # compile-time folding over the hash constant (verbose folds the token, compact the number)
+            if not (s.startswith('"') and s.endswith('"')):  # quoted names: finding F-08b, witness family below
+                src += f"db.Setting = HASH({q}) + 1\ndb.On = HASH({q}) & 65535\ndb.Mode = 0 - HASH({q})\n"
             # the hash kept in a variable and used as a device name (passes through the hash formatter a second time)
             # (single-assignment variable: the constant is propagated; a reassigned variable: it lives in a register)
             src += f"hv{si} = HASH({q})\nGrowLights[hv{si}].On = 2\ndb.Lock = Batteries[hv{si}].Charge.Maximum\nhw = HASH({q})\nGrowLights[hw].On = 3\n"
         cases.append({"family": "STRINGS", "programs": [prog(src)], "vectors": base, "key": common.hkey("S", chunk)})
+    # F-08b: folding over the hash of a name that starts and ends with a double quote
+    for s in [x for x in strs if x.startswith('"') and x.endswith('"')]:
+        q = json.dumps(s, ensure_ascii=False)
+        cases.append({"family": "W-F08b", "programs": [prog(f"db.Setting = HASH({q}) + 1\ndb.On = HASH({q}) & 65535\n")], "vectors": base, "key": common.hkey("F08b", s)})
     st = []
     for ln in range(1, 7):
         st += ["".join(t) for t in itertools.product("aZ ", repeat=ln)]
